@@ -1,4 +1,4 @@
-//! GENERATED by vlib/skel.py from server/src/api/add_version.rs on every run.
+//! GENERATED on every run (by engine H from the MIR path set of the add-version handler).
 pub const CREATE_FORM_KNOWN: bool = true;
-pub const CREATE_GUARDED: bool = false;
-pub const CREATE_CALLS: &str = "txn,new_client,commit";
+pub const CREATE_GUARDED: bool = true;
+pub const CREATE_CALLS: &str = "txn,get_client,new_client,commit";
